@@ -1,6 +1,6 @@
 #!/bin/bash
 # usage: tools/seed_verify.sh <ID> [srcdir]  — confirms a seeded change (suite passes, demo fails with / passes without) and runs all checks on it
-ID=$1; SRC=${2:-/tmp/seed/$ID/out}; WT=/tmp/sv_$ID
+ID=$1; SRC=${2:-/tmp/seed/$ID/out}; TAG=${3:-$ID}; WT=/tmp/sv_$TAG
 git -C /repo worktree remove --force $WT 2>/dev/null
 git -C /repo worktree add -q --detach $WT HEAD || exit 1
 cp $SRC/seed_demo.rs $WT/tests/seed_demo.rs
@@ -17,11 +17,11 @@ cd /verif
 echo "== checks on the changed tree"
 RES=""
 for P in C01 C02 C03 C04 C05 C06 C07 C08 C09 C10 C11 C12 C13 C14 C15 C16 C17; do
-  OUT=$(VERIF_GEN=/tmp/gen_seed_$ID ./check $P --repo $WT 2>&1); RC=$?
+  OUT=$(VERIF_GEN=/tmp/gen_seed_$TAG ./check $P --repo $WT 2>&1); RC=$?
   if [ $RC -eq 1 ]; then RES="$RES $P:VIOLATION"; echo "$OUT" | grep -E "^  obligation|^VIOLATION" | head -6; fi
   if [ $RC -eq 2 ]; then RES="$RES $P:UNDECIDED"; echo "$OUT" | head -2; fi
 done
-echo "RESULT $ID:$RES"
-echo "$DEMO_CLEAN" > /tmp/sv_$ID.demo_clean; echo "$SUITE" > /tmp/sv_$ID.suite; echo "$DEMO_MUT" > /tmp/sv_$ID.demo_mut; echo "$RES" > /tmp/sv_$ID.res
+echo "RESULT $TAG:$RES"
+echo "$DEMO_CLEAN" > /tmp/sv_$TAG.demo_clean; echo "$SUITE" > /tmp/sv_$TAG.suite; echo "$DEMO_MUT" > /tmp/sv_$TAG.demo_mut; echo "$RES" > /tmp/sv_$TAG.res
 rm -rf $WT/target
 git -C /repo worktree remove --force $WT
